@@ -92,7 +92,7 @@ static vf::Verdicts eval(const Inst &in, vf::Ctx &ctx) {
     Spec t = s;
     for (auto &nt : t.nets) nt.weight *= 4.0f;
     // the penalty is not a user-visible weight: scale it through its initial value
-    t.devs.push_back({F_initialValue, 0.03 * 4.0});
+    t.devs.push_back({F_initialValue, (double)makeParams(s).global.penalty.initialValue * 4.0});  // whatever the default is
     Circuit a = build(s), b = build(t);
     // in.penalty == 1: a callback widens the movable cells at the first upper-bound step (allowed during global placement)
     auto resizer = [&](Circuit &c) {
